@@ -1203,6 +1203,13 @@ def audit(out: OutputBuffer, aconf: AuditConf, sshv: Optional[int] = None, print
     out.use_colors = aconf.colors
     s = SSH_Socket(out, aconf.host, aconf.port, aconf.ip_version_preference, aconf.timeout, aconf.timeout_set)
 
+    def fail_target(msg: str) -> None:
+        '''Reports an error that ends the audit of this target.  In JSON mode it is one JSON document, of the shape used for failed targets of multi-target runs.'''
+        if aconf.json:
+            out.info(json.dumps({'target': '%s:%d' % (aconf.host, aconf.port), 'error': msg}, sort_keys=True))
+        else:
+            out.fail(msg)
+
     if aconf.client_audit:
         out.v("Listening for client connection on port %d..." % aconf.port, write_now=True)
         s.listen_and_accept()
@@ -1211,7 +1218,7 @@ def audit(out: OutputBuffer, aconf: AuditConf, sshv: Optional[int] = None, print
         err = s.connect()
 
         if err is not None:
-            out.fail(err)
+            fail_target(err)
 
             # If we're running against multiple targets, return a connection error to the calling worker thread.  Otherwise, write the error message to the console and exit.
             if len(aconf.target_list) > 0:
@@ -1235,7 +1242,7 @@ def audit(out: OutputBuffer, aconf: AuditConf, sshv: Optional[int] = None, print
         try:
             packet_type, payload = s.read_packet(sshv)
         except SSH_Socket.InvalidPacketException as e:
-            out.fail(str(e))
+            fail_target(str(e))
 
             # If we're running against multiple targets, return a connection error to the calling worker thread.  Otherwise, write the error message to the console and exit.
             if len(aconf.target_list) > 0:
@@ -1267,18 +1274,15 @@ def audit(out: OutputBuffer, aconf: AuditConf, sshv: Optional[int] = None, print
                       'instead received unknown message ({2})'
                 err = fmt.format(err_pair[0], err_pair[1], packet_type)
     if err is not None:
-        if aconf.json:
-            # One JSON document, no algorithm fields: the handshake did not get far enough to learn any.
-            out.info(json.dumps({'target': '%s:%d' % (aconf.host, aconf.port), 'error': err}, sort_keys=True))
-        else:
+        if not aconf.json:
             output(out, aconf, banner, header, print_target=print_target)
-            out.fail(err)
+        fail_target(err)  # In JSON mode: one document, no algorithm fields (the handshake did not get far enough to learn any).
         return exitcodes.CONNECTION_ERROR
     if sshv == 1:
         try:
             pkm = SSH1_PublicKeyMessage.parse(payload)
         except Exception:
-            out.fail("Failed to parse server's public key message.  Stack trace:\n%s" % str(traceback.format_exc()))
+            fail_target("Failed to parse server's public key message.  Stack trace:\n%s" % str(traceback.format_exc()))
             return exitcodes.CONNECTION_ERROR
 
         program_retval = output(out, aconf, banner, header, pkm=pkm, print_target=print_target)
@@ -1287,7 +1291,7 @@ def audit(out: OutputBuffer, aconf: AuditConf, sshv: Optional[int] = None, print
             kex = SSH2_Kex.parse(out, payload)
             out.d(str(kex))
         except Exception:
-            out.fail("Failed to parse server's kex.  Stack trace:\n%s" % str(traceback.format_exc()))
+            fail_target("Failed to parse server's kex.  Stack trace:\n%s" % str(traceback.format_exc()))
             return exitcodes.CONNECTION_ERROR
 
         if aconf.dheat is not None:
